@@ -21,7 +21,8 @@ class C06(Prop):
     technique = ("Coq proof: invariants of an interleaving machine whose atomic steps are the shard-lock critical sections of "
                  "registry/mod.rs (any shard count 2^k, any hash function compatible with key equality), preserved by every step hence "
                  "for every schedule; refinement to one association map per kind; operation-history and schedule-replay correspondence "
-                 "on the real Registry<Key, S> with a counting storage double, the model running with the implementation's own get_hash values")
+                 "on the real Registry<Key, S> with a counting storage double, the model running with the implementation's own get_hash values; "
+                 "plus a free-running stress engine (real threads, no scheduler)")
     level_text = ("Theorems (Coq; every schedule, any number of threads and calls, any k, any hash with keq a b -> hash a = hash b, keq an "
                   "equivalence): at every configuration each (kind, key class) has at most one entry and every storage id occurs in at most "
                   "one entry of the whole registry; entries sit in the shard their hash selects; constructions(kind, class) = removals(kind, class) "
@@ -35,7 +36,8 @@ class C06(Prop):
                   "keys); the executable check runs with the real get_hash values. spec_ok is the single-map reference machine of Spec.v replayed "
                   "on the observed lock order; spec_ok_on_model for all cases is not proved (the step-level refinement lemmas are).")
     rule = ("histories: 1 thread, 4-14 calls over 2-5 key classes (variants = equal keys built differently; classes chosen to collide in one "
-            "shard half of the time), all three kinds, every call kind; races: 2-3 threads x 1-2 calls ({2 creators same key}, {creator || "
+            "shard half of the time), all three kinds, every call kind; exhaustive schedules of {2 creators}, {creator || create;delete}, "
+            "{create;get || delete} (thorough: + {creator || retain}, {2x2 calls}); races: 2-3 threads x 1-2 calls ({2 creators same key}, {creator || "
             "deleter}, {creator || retain/clear}, mixed), random/bursty schedules + round-robin tail; non-trivial = some storage constructed and "
             "(a removal or a second creator of a live class or >=2 threads reaching their locks); distinct = distinct (programs, executed trace)")
     assumptions = ["SC memory model at shard-lock granularity", "yield hooks placed immediately before each shard lock acquisition of registry/mod.rs",
